@@ -535,7 +535,9 @@ class dir_archive(archive):
         return
     def _lsdir(self):
         "get a list of subdirectories in the root directory"
-        return walk(self.__state__['id'],patterns=PREFIX+'*',recurse=False,folders=True,files=False,links=False)
+        dirs = walk(self.__state__['id'],patterns=PREFIX+'*',recurse=False,folders=True,files=False,links=False)
+        # a staging directory (of a store in progress, or left by a killed one) is not an entry
+        return [d for d in dirs if not os.path.basename(d).startswith(PREFIX+TEMP)]
     def _hasinput(self, root):
         "check if results subdirectory has stored input file"
         return bool(walk(root,patterns=self._args,recurse=False,folders=False,files=True,links=False))
